@@ -105,7 +105,8 @@ def gen_instant(rng, toks):
     if 'yy' in toks:
         year = rng.choice([1969, 1999, 2000, 2024, 2068, rng.randint(1970, 2068)])
     else:
-        year = rng.choice([1900, 1970, 2000, 2024, 2262 - 1, 1700, rng.randint(1700, 2200)])
+        # (incl. years that do not fit a nanosecond timestamp: the usual open-ended sentinel, and history)
+        year = rng.choice([1900, 1970, 2000, 2024, 2262 - 1, 1700, rng.randint(1700, 2200), 9999, 1066, 2400])
     month = rng.choice([1, 2, 9, 10, 12, rng.randint(1, 12)])
     day = rng.choice([1, 9, 10, 28, rng.randint(1, 28)])
     return dt.datetime(year, month, day, rng.choice([0, 9, 12, 23]), rng.choice([0, 5, 59]),
@@ -227,7 +228,11 @@ def load_table(tb, workdir):
         cols = [{k: v for k, v in c.items() if not k.startswith('_')} for c in tb['cols']]
         md = {'@context': 'http://www.w3.org/ns/csvw', 'url': 't.csv',
               'tableSchema': {'columns': cols}}
-        if dialect:
+        if dialect and SLOT[0] % 4 == 1:
+            # the other place CSVW allows a dialect: on the table description of a table group
+            md = {'@context': 'http://www.w3.org/ns/csvw',
+                  'tables': [{'url': 't.csv', 'dialect': dialect, 'tableSchema': {'columns': cols}}]}
+        elif dialect:
             md['dialect'] = dialect
         mdp = os.path.join(d, 't.csv-metadata.json')
         with open(mdp, 'w') as f:
